@@ -794,6 +794,14 @@ class IDManager:
                 ),
             )
 
+    def unmark_uploaded(self, id: int, terminal: str):
+        """Forgets that the image with the given id was uploaded to the terminal."""
+        with closing(self.conn.cursor()) as cursor:
+            cursor.execute(
+                "DELETE FROM upload WHERE id=? AND terminal=?",
+                (id, terminal),
+            )
+
     def cleanup_uploads(
         self,
         max_uploads: int = 1024,
